@@ -27,7 +27,7 @@ rc0, out0 = demo(); ran["demo_pristine_rc"] = rc0
 a = subprocess.run(["git", "-C", scratch, "apply", os.path.join(dst, "patch.diff")], stdout=subprocess.PIPE, stderr=subprocess.STDOUT, text=True)
 ran["patch_applies"] = a.returncode == 0
 rc1, out1 = demo(); ran["demo_mutated_rc"] = rc1; ran["demo_mutated_out"] = out1.strip().splitlines()[-3:]
-s = subprocess.run(["/tmp/seed/runsuite.sh", scratch], stdout=subprocess.PIPE, stderr=subprocess.STDOUT, text=True)
+s = subprocess.run(["/verif/tools/runsuite.sh", scratch], stdout=subprocess.PIPE, stderr=subprocess.STDOUT, text=True)
 ran["suite"] = [l for l in s.stdout.splitlines() if "stable tests" in l]
 confirmed = rc0 == 0 and rc1 != 0 and ran["patch_applies"] and any("failing: 0" in l for l in ran["suite"])
 ran["confirmed"] = confirmed
